@@ -10,6 +10,7 @@ import (
 	"regexp"
 	"strconv"
 	"strings"
+	"unicode/utf8"
 )
 
 var (
@@ -849,6 +850,27 @@ var (
 
 func unquote(s string) string {
 	return quotedIdentEscapePattern.ReplaceAllStringFunc(s[1:len(s)-1], quotedIdentUnescape)
+}
+
+// validEscapes checks if every octal or hexadecimal escape sequence in the quoted token denotes a character.
+// U+FFFD in the unquoted text isn't enough of a sign that one doesn't: '\xfffd\' is the escape sequence for that very
+// character, and it's how the character is written between quotes.
+func validEscapes(s string) bool {
+	for _, e := range quotedIdentEscapePattern.FindAllString(s[1:len(s)-1], -1) {
+		if quotedIdentUnescape(e) != string(utf8.RuneError) {
+			continue
+		}
+		e = e[1 : len(e)-1] // `xfffd` or `177775`
+		base := 8
+		if e[0] == 'x' {
+			e = e[1:]
+			base = 16
+		}
+		if r, err := strconv.ParseInt(e, base, 4*8); err != nil || r != utf8.RuneError {
+			return false
+		}
+	}
+	return true
 }
 
 func quotedIdentUnescape(s string) string {
